@@ -47,6 +47,13 @@ def run(ctx) -> None:
     ctx.reuse("C04.once-per-occurrence", c01.pair_distribute, "C01.pair-distribute")
     ctx.reuse("C04.frame", c02.ctor)
     ctx.reuse("C04.frame", c02.alias)
+    # through transfer: every (source, destination, volume) triple of a column group is visited with its own volume
+    from . import c06
+    from .common import concrete_devices
+
+    for dev in concrete_devices(ctx):
+        ctx.reuse("C04.pairing", c06.wiring, dev)
+        ctx.reuse("C04.pairing", c06.iteration_space, dev)
 
 
 def _loop_param_seq(fv, seq: ast.AST) -> Optional[str]:
